@@ -18,6 +18,7 @@ import (
 	"sort"
 	"strconv"
 	"strings"
+	"unicode/utf8"
 )
 
 type Event struct {
@@ -453,7 +454,7 @@ func leanInstrs(paths [][]Event) string {
 		for _, e := range p {
 			es = append(es, fmt.Sprintf(".%s %s", e.Kind, strconv.Quote(e.Arg)))
 		}
-		ps = append(ps, "[" + strings.Join(es, ", ") + "]")
+		ps = append(ps, "["+strings.Join(es, ", ")+"]")
 	}
 	return "[" + strings.Join(ps, ",\n    ") + "]"
 }
@@ -461,25 +462,25 @@ func leanInstrs(paths [][]Event) string {
 // ---------------------------------------------------------------- individual fact groups
 
 type Facts struct {
-	ExecReaderPaths   [][]Event           `json:"execReaderPaths"`
-	CacheAccessors    []string            `json:"cacheAccessors"`
-	ParallelWorkers   map[string][][]Event `json:"parallelWorkerPaths"`
-	RegistryWriters   map[string][]string `json:"registryWriters"`
-	PackageVarWriters map[string][]string `json:"packageVarWriters"`
-	PackageVarUsers   map[string][]string `json:"packageVarUsers"`
-	SubPackageVars    map[string][]string `json:"subPackageVars"`
+	ExecReaderPaths   [][]Event              `json:"execReaderPaths"`
+	CacheAccessors    []string               `json:"cacheAccessors"`
+	ParallelWorkers   map[string][][]Event   `json:"parallelWorkerPaths"`
+	RegistryWriters   map[string][]string    `json:"registryWriters"`
+	PackageVarWriters map[string][]string    `json:"packageVarWriters"`
+	PackageVarUsers   map[string][]string    `json:"packageVarUsers"`
+	SubPackageVars    map[string][]string    `json:"subPackageVars"`
 	Decisions         map[string][]string    `json:"decisions"` // straight-line decision lists (sort comparator, window arithmetic)
-	OpTables          map[string][][2]string `json:"opTables"` // per function: (operator case, what the case computes) // package-level variables of the sub-packages (compare, sanitizer, …)
-	VarsAccess        map[string][][]Event `json:"varsAccessPaths"`
-	AsyncEvents       map[string][]string `json:"asyncEvents"`
-	AsyncUnwind       map[string][]string `json:"asyncUnwind"` // what runs, in order, when the called function panics
-	NestedForwarders  []string            `json:"nestedForwarders"`
-	Registry          [][3]string         `json:"registry"` // name, immediate, guard arity ("" = none)
-	WriteSites        []string            `json:"writeSites"`
-	PanicSites        []string            `json:"panicSites"`
-	GoSites           []string            `json:"goSites"`
-	RecoverFuncs      []string            `json:"recoverFuncs"`
-	SwallowSites      []string            `json:"swallowSites"`
+	OpTables          map[string][][2]string `json:"opTables"`  // per function: (operator case, what the case computes) // package-level variables of the sub-packages (compare, sanitizer, …)
+	VarsAccess        map[string][][]Event   `json:"varsAccessPaths"`
+	AsyncEvents       map[string][]string    `json:"asyncEvents"`
+	AsyncUnwind       map[string][]string    `json:"asyncUnwind"` // what runs, in order, when the called function panics
+	NestedForwarders  []string               `json:"nestedForwarders"`
+	Registry          [][3]string            `json:"registry"` // name, immediate, guard arity ("" = none)
+	WriteSites        []string               `json:"writeSites"`
+	PanicSites        []string               `json:"panicSites"`
+	GoSites           []string               `json:"goSites"`
+	RecoverFuncs      []string               `json:"recoverFuncs"`
+	SwallowSites      []string               `json:"swallowSites"`
 }
 
 func (ex *extractor) execReader(f *Facts) {
@@ -726,7 +727,9 @@ func stmtText(n ast.Node) string {
 // decision lists: the top-level statements of the `sort.go` comparator, and the statements of `exec()` that compute
 // the LIMIT / OFFSET window, as normalised source text in order
 func (ex *extractor) decisions(f *Facts) {
-	f.Decisions = map[string][]string{}
+	if f.Decisions == nil {
+		f.Decisions = map[string][]string{}
+	}
 	if fd := ex.funcs["Compare"]; fd != nil && fd.Body != nil {
 		for _, st := range fd.Body.List {
 			f.Decisions["sortCompare"] = append(f.Decisions["sortCompare"], stmtText(st))
@@ -1289,27 +1292,27 @@ func (ex *extractor) writeSites(f *Facts) {
 		// pass 1: locals initialised with a fresh value (incl. `var x T` declarations and range-less := );
 		// repeated, because `y := append(x, …)` is fresh only once `x` is known to be
 		for round := 0; round < 3; round++ {
-		ast.Inspect(d.Body, func(n ast.Node) bool {
-			switch t := n.(type) {
-			case *ast.AssignStmt:
-				if len(t.Lhs) == len(t.Rhs) {
-					for i, l := range t.Lhs {
-						if id, ok := l.(*ast.Ident); ok && id.Obj != nil && isFreshExpr(t.Rhs[i]) {
-							if t.Tok == token.DEFINE {
-								fresh[id.Obj] = true
+			ast.Inspect(d.Body, func(n ast.Node) bool {
+				switch t := n.(type) {
+				case *ast.AssignStmt:
+					if len(t.Lhs) == len(t.Rhs) {
+						for i, l := range t.Lhs {
+							if id, ok := l.(*ast.Ident); ok && id.Obj != nil && isFreshExpr(t.Rhs[i]) {
+								if t.Tok == token.DEFINE {
+									fresh[id.Obj] = true
+								}
 							}
 						}
 					}
-				}
-			case *ast.ValueSpec:
-				for i, nme := range t.Names {
-					if nme.Obj != nil && (len(t.Values) == 0 || (i < len(t.Values) && isFreshExpr(t.Values[i]))) {
-						fresh[nme.Obj] = true
+				case *ast.ValueSpec:
+					for i, nme := range t.Names {
+						if nme.Obj != nil && (len(t.Values) == 0 || (i < len(t.Values) && isFreshExpr(t.Values[i]))) {
+							fresh[nme.Obj] = true
+						}
 					}
 				}
-			}
-			return true
-		})
+				return true
+			})
 		}
 		// a local that is ever re-assigned a non-fresh value is not fresh
 		ast.Inspect(d.Body, func(n ast.Node) bool {
@@ -1748,6 +1751,40 @@ func main() {
 			}
 			sf := &Facts{}
 			sub.packageVars(sf)
+			// the whole text of the sub-package's functions, statement by statement (long statements in pieces of 160
+			// characters): `compare` and `sanitizer` are modelled function by function (Model/Compare, Model/Sanitize)
+			{
+				var names []string
+				for n := range sub.funcs {
+					names = append(names, n)
+				}
+				sort.Strings(names)
+				key := "pkg" + strings.ToUpper(e.Name()[:1]) + e.Name()[1:]
+				if f.Decisions == nil {
+					f.Decisions = map[string][]string{}
+				}
+				for _, n := range names {
+					fd := sub.funcs[n]
+					if fd.Body == nil {
+						continue
+					}
+					f.Decisions[key] = append(f.Decisions[key], n+": "+stmtText(fd.Type))
+					for i, st := range fd.Body.List {
+						txt := stmtText(st)
+						for j := 0; len(txt) > 0; j++ {
+							cut := len(txt)
+							if cut > 160 {
+								cut = 160
+								for cut > 0 && !utf8.RuneStart(txt[cut]) {
+									cut--
+								}
+							}
+							f.Decisions[key] = append(f.Decisions[key], fmt.Sprintf("%s#%d.%d: %s", n, i, j, txt[:cut]))
+							txt = txt[cut:]
+						}
+					}
+				}
+			}
 			// declared variables, whether or not a function mentions them yet
 			for _, file := range sub.files {
 				for _, d := range file.Decls {
@@ -1829,7 +1866,7 @@ func main() {
 		}
 		sb.WriteString("def " + k + "Events : List Ev := [" + strings.Join(evs, ", ") + "]\n")
 	}
-	for _, k := range []string{"sortCompare", "window", "join", "stages", "vars", "copyQuery", "queryFields", "dialect", "valueOf", "selectExpr"} {
+	for _, k := range []string{"sortCompare", "window", "join", "stages", "vars", "copyQuery", "queryFields", "dialect", "valueOf", "selectExpr", "pkgCompare", "pkgSanitizer"} {
 		sb.WriteString("def decisions" + strings.ToUpper(k[:1]) + k[1:] + " : List String :=\n  " + leanStrList(f.Decisions[k]) + "\n\n")
 	}
 	for _, fn := range []string{"ComparisonExpr", "BinaryExpr", "UnaryExpr"} {
